@@ -19,7 +19,7 @@ from __future__ import annotations
 import sympy as sp
 
 from .common import *  # noqa
-from .grlib import is_rowwise_norm, pbc_args, pair_difference, index_kind, hist_info, classify_index, Misaligned, Undecidable
+from .grlib import no_wrap_possible, is_rowwise_norm, pbc_args, pair_difference, index_kind, hist_info, classify_index, Misaligned, Undecidable
 from ..vg import Interp
 
 GR = "static.gr.conditional_gr"
@@ -128,8 +128,7 @@ def check_gr_arm(run, pkg, name, dtype, ctype):
     for col in ("gr", "gA"):
         evs = acc.get(col, [])
         if len(evs) != 1:
-            run.ob("R-ALG", fq, f"{name}:{col}:accumulate", None if evs else False, f"column {col} accumulates one histogram per centre particle", f"{len(evs)} statements",
-                   witness=None if evs else f"{col} never filled for {name} quantities", loc=fi.loc())
+            run.ob("R-ALG", fq, f"{name}:{col}:accumulate", None, f"column {col} accumulates one histogram per centre particle", f"{len(evs)} statements", loc=fi.loc())
             return
     e_gr, e_ga = acc["gr"][0], acc["gA"][0]
     if len(e_ga.loops) != 1 or e_gr.loops != e_ga.loops:
@@ -153,24 +152,25 @@ def check_gr_arm(run, pkg, name, dtype, ctype):
         tr = S.Translator(lambda t: sLmin if t == LMIN else (sdel if t == ("sym", "rdelta") else None), True)
         try:
             gb = tr.tr(hi["bins"]) if hi["bins"] is not None else None
-            okb = gb is not None and S.decide_equal(gb, S.PyInt(sLmin / (2 * sdel)))[0] is True
+            okb = S.decide_equal(gb, S.PyInt(sLmin / (2 * sdel)))[0] if gb is not None else None
             rg = hi["range"]
             okr = tri_lazy(lambda: (True if (rg is not None) else None), lambda: (True if (rg[0] == "tuple") else None), lambda: (True if (len(rg[1]) == 2) else None), lambda: eqv(rg[1][0], C(0), C(0.0)), lambda: (True if (S.decide_equal(tr.tr(rg[1][1]), S.PyInt(sLmin / (2 * sdel)) * sdel)[0] is True) else None))
         except Exception:  # noqa
             okb = okr = None
         run.ob("R-ALG", fq, f"{name}:{col}:bins", okb, "bins = int(L_min / (2 rdelta))", show(hi["bins"])[:70] if hi["bins"] else "default",
-               witness=None if okb else "bin count differs from the row count", loc=loc)
+               witness=None if okb else "bin count differs from the row count", loc=loc, sound=True)
         run.ob("R-ALG", fq, f"{name}:{col}:range", okr, "range = (0, maxbin * rdelta)", show(hi["range"])[:80] if hi["range"] else "default",
                witness=None if okr else "bin edges differ from k * rdelta", loc=loc, sound=True)
         if hi["mask"] is not None:
-            run.ob("R-ALG", fq, f"{name}:{col}:unmasked", False, "every pair enters the histogram", show(hi["mask"])[:60], witness="pairs filtered before weighting", loc=loc)
+            run.ob("R-ALG", fq, f"{name}:{col}:unmasked", None, "every pair enters the histogram", show(hi["mask"])[:60], loc=loc)
         inner = is_rowwise_norm(hi["data"]) if hi["data"] is not None else None
         pa = pbc_args(inner) if inner is not None else None
         pdiff = pair_difference(pa[0]) if pa else None
         if not pdiff:
             plain = pair_difference(inner) if inner is not None else None
+            plain = plain and no_wrap_possible(hi["data"])
             run.ob("R-PBC", fq, f"{name}:{col}:distance", False if plain else None, "histogrammed quantity is |minimum image of r_j - r_i|",
-                   show(hi["data"])[:100] if hi["data"] else "?", witness="distances across the periodic boundary are not imaged" if plain else None, loc=loc)
+                   show(hi["data"])[:100] if hi["data"] else "?", witness="distances across the periodic boundary are not imaged" if plain else None, loc=loc, sound=True)
             continue
         kinds = {index_kind(pdiff["left"], ivar), index_kind(pdiff["right"], ivar)}
         ok_al = tri_lazy(lambda: eqv(pdiff["snap"], SNAP), lambda: (True if (kinds == {"i", "after_i"}) else None))
@@ -178,17 +178,17 @@ def check_gr_arm(run, pkg, name, dtype, ctype):
                witness=None if ok_al else "pair set is not {(i, j): j > i}", loc=loc, sound=True)
         okh = eqv(pa[1], ("attr", SNAP, "hmatrix"))
         run.ob("R-PBC", fq, f"{name}:{col}:cell", okh, "minimum image uses the snapshot's cell", show(pa[1])[:50], witness=None if okh else "another cell", loc=loc, sound=True)
-        okm = eqv(pa[2], ("sym", "ppp"))
+        okm = eqv(pa[2], ("sym", "ppp")) if pa[2] is not None else False
         run.ob("R-PBC", fq, f"{name}:{col}:mask", okm, "the caller's periodicity mask is forwarded", show(pa[2])[:40] if pa[2] else "default",
                witness=None if okm else "mask not forwarded", loc=loc, sound=True)
     if "gr" in info:
         okw = info["gr"]["weights"] is None
-        run.ob("R-ALG", fq, f"{name}:gr:unweighted", okw, "the reference g(r) counts pairs without weights", show(info["gr"]["weights"])[:60] if not okw else "no weights",
+        run.ob("R-ALG", fq, f"{name}:gr:unweighted", True if okw else None, "the reference g(r) counts pairs without weights", show(info["gr"]["weights"])[:60] if not okw else "no weights",
                witness=None if okw else "reference g(r) weighted", loc=loc_of(it, e_gr))
     if "gA" in info:
-        same = info["gA"]["data"] == info.get("gr", {}).get("data")
+        same = eqv(info["gA"]["data"], info["gr"]["data"]) if info.get("gr", {}).get("data") is not None else None
         run.ob("R-ALIGN", fq, f"{name}:gA:same-distances", same, "weighted and unweighted histograms bin the same distances", "",
-               witness=None if same else "gA and gr histogram different distance arrays", loc=loc_of(it, e_ga))
+               witness=None if same else "gA and gr histogram different distance arrays", loc=loc_of(it, e_ga), sound=True)
         check_weight(run, it, fq, name, info["gA"]["weights"], cond_now, ivar, e_ga)
     # ---- normalisation
     edges_ok = lambda call: True
@@ -216,14 +216,13 @@ def check_gr_arm(run, pkg, name, dtype, ctype):
     for col, (ref, what) in refs.items():
         evs = post.get(col, [])
         if len(evs) != 1 or evs[0].data["op"] is not None:
-            run.ob("R-ALG", fq, f"{name}:{col}:norm", None if evs else False, what, f"{len(evs)} assignments", witness=None if evs else f"{col} left as raw counts", loc=fi.loc())
+            run.ob("R-ALG", fq, f"{name}:{col}:norm", None, what, f"{len(evs)} assignments", loc=fi.loc())
             continue
         ev = evs[0]
         val = ev.data["value"]
         reads = {x[2][1] for x in walk(val) if x[0] == "sub" and x[1] == df and is_const(x[2])}
         if col != "r" and reads != {col}:
-            run.ob("R-ALG", fq, f"{name}:{col}:norm", False if reads else None, what, f"normalises counts read from {sorted(reads)}",
-                   witness=f"{col} computed from column(s) {sorted(reads)}", loc=loc_of(it, ev))
+            run.ob("R-ALG", fq, f"{name}:{col}:norm", None, what, f"normalises counts read from {sorted(reads)}", loc=loc_of(it, ev))
             continue
         check_algebra(run, "R-ALG", it, f"{name}:{col}:norm", what, val, ref, atom_of, loc_of(it, ev), positive=True,
                       prep=lambda e_: sp.simplify(e_.subs(rlo, rhi - sdel)))
@@ -231,7 +230,7 @@ def check_gr_arm(run, pkg, name, dtype, ctype):
     gn = post.get("gA_norm", [])
     if name == "scalar":
         if len(gn) != 1:
-            run.ob("R-ALG", fq, "scalar:gA_norm", False if not gn else None, "real scalars also get gA_norm", f"{len(gn)} assignments", witness="gA_norm missing", loc=fi.loc())
+            run.ob("R-ALG", fq, "scalar:gA_norm", None, "real scalars also get gA_norm", f"{len(gn)} assignments", loc=fi.loc())
         else:
             m1, m2, g = sp.symbols("meanA meanA2 gA")
 
@@ -250,13 +249,13 @@ def check_gr_arm(run, pkg, name, dtype, ctype):
             run.ob("R-ALG", fq, "scalar:gA_norm:order", okafter, "gA_norm is computed from the normalised g_A", "", witness=None if okafter else "raw counts used", loc=loc_of(it, gn[0]))
     else:
         run.ob("R-DISPATCH", fq, f"{name}:no-gA_norm", not gn, "gA_norm is produced only for real scalar quantities", f"{len(gn)} assignments",
-               witness=None if not gn else f"{name} quantity gets a variance-normalised column", loc=fi.loc())
+               witness=None if not gn else f"{name} quantity gets a variance-normalised column", loc=fi.loc(), sound=True)
 
 
 def check_weight(run, it, fq, name, w, cond_now, ivar, ev):
     loc = loc_of(it, ev)
     if w is None:
-        run.ob("R-ALG", fq, f"{name}:weight", False, "g_A is a weighted histogram", "no weights", witness="gA equals the plain pair count", loc=loc)
+        run.ob("R-ALG", fq, f"{name}:weight", False, "g_A is a weighted histogram", "no weights", witness="gA equals the plain pair count", loc=loc, sound=True)
         return
     if name == "tensor":
         # w = zeros(N-(i+1)) filled by SIJ[j] = trace(matmul(cond[i], cond[j+i+1])), j over range(len)
@@ -280,9 +279,11 @@ def check_weight(run, it, fq, name, w, cond_now, ivar, ev):
             elif m[0] == "bin" and m[1] == "@":
                 A, B = m[2], m[3]
         if A is None:
-            elementwise = v[0] == "call" and v[1] in (".sum", "numpy.sum")
+            # sum of the element-wise product of the two bare tensors (no transpose anywhere): sum_ab A_ab B_ab
+            elementwise = v[0] == "call" and v[1] in (".sum", "numpy.sum") and len(v[2]) == 1 and not v[3] and v[2][0][0] == "bin" and v[2][0][1] == "*" \
+                and factor(v[2][0][2], COND) is not None and factor(v[2][0][3], COND) is not None
             run.ob("R-ALG", fq, "tensor:weight", False if elementwise else None, "tensor weight is the trace of the matrix product tr(A_i A_j)", show(v)[:100],
-                   witness="sum_ab A_ab B_ab differs from tr(A B) for non-symmetric tensors" if elementwise else None, loc=loc_of(it, f))
+                   witness="sum_ab A_ab B_ab differs from tr(A B) for non-symmetric tensors" if elementwise else None, loc=loc_of(it, f), sound=True)
             return
         fa, fb = factor(A, COND), factor(B, COND)
         if fa is None or fb is None:
@@ -306,7 +307,7 @@ def check_weight(run, it, fq, name, w, cond_now, ivar, ev):
                 if bad:
                     break
             run.ob("R-ALIGN", fq, "tensor:pair", bad is None, "weight slot j holds tr(A_i A_{i+1+j}): the pair whose distance sits in slot j", f"{show(fa[0])}, {show(fb[0])} -> slot {show(slot)}",
-                   witness=bad, loc=loc_of(it, f))
+                   witness=bad, loc=loc_of(it, f), sound=True)
         except Undecidable as e:
             run.ob("R-ALIGN", fq, "tensor:pair", None, "tensor pair indices decidable", str(e), loc=loc_of(it, f))
         return
@@ -318,8 +319,11 @@ def check_weight(run, it, fq, name, w, cond_now, ivar, ev):
             red = "sum"
             w0, _, real2 = strip(w0[2][0])
             real = real or real2
-        run.ob("R-ALG", fq, "vector:reduction", red == "sum", "vector weights are summed over components (axis 1)", show(w)[:100],
-               witness=None if red == "sum" else "no component sum: weights are not one number per pair", loc=loc)
+        okred = True if red == "sum" else None
+        if red is None and w0[0] == "call" and w0[1] in (".sum", "numpy.sum") and is_const(kw(w0, "axis", 1) or NONE) and kw(w0, "axis", 1) not in (C(1), C(-1)):
+            okred = False          # the recognised reduction runs over another axis (or over everything)
+        run.ob("R-ALG", fq, "vector:reduction", okred, "vector weights are summed over components (axis 1)", show(w)[:100],
+               witness=None if red == "sum" else "the product is not reduced over the component axis: weights are not one number per pair (j > i)", loc=loc, sound=True)
         if red != "sum":
             return
     if not (w0[0] == "bin" and w0[1] == "*"):
@@ -339,12 +343,12 @@ def check_weight(run, it, fq, name, w, cond_now, ivar, ev):
     except Undecidable as e:
         okidx, wit = None, str(e)
     run.ob("R-ALIGN", fq, f"{name}:weight:pair", okidx, "the weight multiplies the quantity of the centre i with that of the particles j > i (same slice as the distances)",
-           f"[{show(fa[0])}] x [{show(fb[0])}]", witness=wit, loc=loc)
+           f"[{show(fa[0])}] x [{show(fb[0])}]", witness=wit, loc=loc, sound=True)
     if name in ("complex", "vector"):
         okc = fa[1] != fb[1]
         run.ob("R-ALG", fq, f"{name}:weight:conj", okc, "exactly one factor is complex-conjugated: Re(A_j conj A_i)", f"conj flags {fa[1]}, {fb[1]}",
-               witness=None if okc else "complex A: Re(A_i A_j) instead of Re(A_i conj A_j)", loc=loc)
-        run.ob("R-ALG", fq, f"{name}:weight:real", real, "the real part of the product is histogrammed", show(w)[:80],
+               witness=None if okc else "complex A: Re(A_i A_j) instead of Re(A_i conj A_j)", loc=loc, sound=True)
+        run.ob("R-ALG", fq, f"{name}:weight:real", True if real else None, "the real part of the product is histogrammed", show(w)[:80],
                witness=None if real else "complex weights passed to np.histogram", loc=loc)
     else:
         run.ob("R-ALG", fq, f"{name}:weight:conj", True, "real quantity: conjugation is the identity", f"conj flags {fa[1]}, {fb[1]}", loc=loc, nontrivial=False)
@@ -355,9 +359,12 @@ def check_gr_unknown(run, pkg):
     fq = short(it.fi.qual)
     raises = [e for e in it.events if e.kind == "raise" and not e.loops]
     reach_ret = [r for r in it.returns]
-    ok = bool(raises) and not reach_ret
+    ok = True if (bool(raises) and not reach_ret) else None
+    # a return reached without any undecided test of the (folded) kind string: definite
+    if reach_ret and any(not [g for g, _ in r.guards if C("spam") in set(walk(g))] for r in reach_ret):
+        ok = False
     run.ob("R-DISPATCH", fq, "unknown-kind", ok, "an unknown conditiontype raises instead of returning numbers", f"{len(raises)} raise, {len(reach_ret)} reachable returns",
-           witness=None if ok else "conditiontype='spam' returns a table", loc=it.fi.loc())
+           witness=None if ok else "conditiontype='spam' returns a table", loc=it.fi.loc(), sound=True)
 
 
 # ====================================================================== conditional_sq
@@ -394,17 +401,18 @@ def check_sq(run, pkg):
         if "q" in st:
             qn = st["q"].data["value"]
             Q = is_rowwise_norm(qn)
-        okq = False
+        okq = None
         if Q is not None and Q[0] == "bin" and Q[1] == "*":
             a, b = Q[2], Q[3]
             for x, y in ((a, b), (b, a)):
                 x0 = x[2][0] if x[0] == "call" and x[1] == ".astype" else x
                 if x0 == ("sym", "qvector") and y[0] == "sub" and y[2] == ("tuple", (("mod", "numpy.newaxis"), FULL)):
                     Ls = sp.Symbol("L", positive=True)
-                    ok_, _ = S.decide_equal(S.Translator(lambda t: Ls if t == L_ else None, True).tr(y[1]), 2 * sp.pi / Ls)
-                    okq = bool(ok_)
+                    trq = S.Translator(lambda t: Ls if t == L_ else None, True)
+                    ok_, _ = S.decide_equal(trq.tr(y[1]), 2 * sp.pi / Ls)
+                    okq = ok_ if not trq.atoms else (True if ok_ else None)
         run.ob("R-ALG", fq, f"{kind}:q", okq, "wave vectors are integer vectors x 2 pi / L axis by axis; the q column is their row norm", show(Q)[:100] if Q else "?",
-               witness=None if okq else "q != 2 pi n / L (per axis)", loc=loc_of(it, st["q"]) if "q" in st else fi.loc())
+               witness=None if okq else "q != 2 pi n / L (per axis)", loc=loc_of(it, st["q"]) if "q" in st else fi.loc(), sound=True)
         if "Sq" not in st or Q is None:
             run.ob("R-ALG", fq, f"{kind}:Sq", None, "Sq column assigned", "not found", loc=fi.loc())
             continue
@@ -416,9 +424,12 @@ def check_sq(run, pkg):
             comp_sum = True
             v, _, r2 = strip(v[2][0])
             real = real or r2
-        okred = comp_sum == (kind == "vector")
+        okred = True if comp_sum == (kind == "vector") else None
+        if kind == "vector" and not comp_sum and v[0] == "sub" and v[2][0] == "tuple" and any(is_const(x) and isinstance(x[1], int) for x in v[2][1]):
+            okred = False          # one component picked instead of the sum over components
+            v = v[1]
         run.ob("R-ALG", fq, f"{kind}:components", okred, "the modulus is summed over vector components (only for vector quantities)", f"component sum = {comp_sum}",
-               witness=None if okred else "vector field: S is not the sum over components", loc=loc)
+               witness=None if okred else "vector field: S is not the sum over components", loc=loc, sound=True)
         E = None
         okmod = False
         if v[0] == "bin" and v[1] == "*":
@@ -434,20 +445,23 @@ def check_sq(run, pkg):
             E = v[2][2][0]
             okmod = True
             real = True
-        run.ob("R-ALG", fq, f"{kind}:modulus", bool(okmod and real), "S = Re(F conj F) = |F|^2 of one Fourier sum F", show(ev.data["value"])[:100],
+        run.ob("R-ALG", fq, f"{kind}:modulus", True if (okmod and real) else None, "S = Re(F conj F) = |F|^2 of one Fourier sum F", show(ev.data["value"])[:100],
                witness=None if okmod and real else "not the squared modulus of the Fourier sum", loc=loc)
         if E is None:
             continue
         # F = SUM / sqrt(Nsel)
         Nsel = ("call", ".sum", (COND,), ()) if kind == "bool" else NP_
-        oknorm = False
+        oknorm = None
         SUM = None
         if E[0] == "bin" and E[1] == "/":
             SUM, den = E[2], E[3]
-            oknorm = eqv(den, ("call", "math.sqrt", (Nsel,), ()), ("call", "numpy.sqrt", (Nsel,), ()), ("bin", "**", Nsel, C(0.5)))
+            oknorm = eqv(den, ("call", "math.sqrt", (Nsel,), ()), ("call", "numpy.sqrt", (Nsel,), ()), ("bin", "**", Nsel, C(0.5)), same=True)
+            other = NP_ if kind == "bool" else None
+            if oknorm is None and other is not None and eqv(den, ("call", "math.sqrt", (other,), ()), ("call", "numpy.sqrt", (other,), ())) is True:
+                oknorm = False     # the total particle number where the number of selected particles belongs
         run.ob("R-ALG", fq, f"{kind}:norm", oknorm, "the Fourier sum is divided by sqrt(" + ("number of selected particles" if kind == "bool" else "N") + ") before the modulus: S = |sum|^2 / N"
                + (" (the S_aa of sq.* with N_a = selected count)" if kind == "bool" else ""), show(E[3])[:60] if E[0] == "bin" else show(E)[:60],
-               witness=None if oknorm else "normalisation is not 1/N" + ("_selected" if kind == "bool" else ""), loc=loc)
+               witness=None if oknorm else "normalisation is not 1/N" + ("_selected" if kind == "bool" else ""), loc=loc, sound=True)
         if SUM is None or split_acc(SUM) is None:
             run.ob("R-ALG", fq, f"{kind}:sum", None, "Fourier sum accumulated in a particle loop", show(SUM)[:80] if SUM else "?", loc=loc)
             continue
@@ -491,12 +505,14 @@ def check_sq(run, pkg):
             except Exception:  # noqa
                 okph = None
         run.ob("R-ALG", fq, f"{kind}:phase", okph, "each particle contributes exp(-i q.r_i), q.r summed over the axes", show(phase)[:110],
-               witness=None if okph is not False else "phase sign or reduction differ from exp(-i q.r)", loc=loc)
-        okpos = bool(theta_terms) and all(t == ("sub", P, ivar) for t in theta_terms)
+               witness=None if okph is not False else "phase sign or reduction differ from exp(-i q.r)", loc=loc, sound=True)
+        okpos = tri(*[eqv(t, ("sub", P, ivar)) for t in theta_terms]) if theta_terms else None
+        if okpos is None and kind == "bool" and theta_terms and all(t == ("sub", ("attr", SNAP, "positions"), ivar) for t in theta_terms):
+            okpos = False          # index i of the selected-particle loop applied to the unselected position array
         run.ob("R-ALIGN", fq, f"{kind}:position", okpos, "r_i is the position of particle i of the " + ("selected set" if kind == "bool" else "snapshot"),
-               ", ".join(show(t)[:50] for t in theta_terms) or "?", witness=None if okpos else "positions of other particles / unselected particles enter the sum", loc=loc)
+               ", ".join(show(t)[:50] for t in theta_terms) or "?", witness=None if okpos else "positions of other particles / unselected particles enter the sum", loc=loc, sound=True)
         if kind == "bool":
-            run.ob("R-ALG", fq, "bool:weight", weight is None, "selected particles contribute with weight 1 (partial S_aa)", show(weight)[:60] if weight else "none",
+            run.ob("R-ALG", fq, "bool:weight", True if weight is None else None, "selected particles contribute with weight 1 (partial S_aa)", show(weight)[:60] if weight else "none",
                    witness=None if weight is None else "selected particles are re-weighted", loc=loc)
         else:
             wi = weight
@@ -508,7 +524,7 @@ def check_sq(run, pkg):
         # ---- FFT column(s) hold F
         if kind != "vector" and "FFT" in st:
             okf = st["FFT"].data["value"] == E
-            run.ob("R-ALG", fq, f"{kind}:FFT", okf, "the FFT column is the normalised Fourier sum whose modulus is S", "", witness=None if okf else "FFT column is another quantity", loc=loc_of(it, st["FFT"]))
+            run.ob("R-ALG", fq, f"{kind}:FFT", True if okf else None, "the FFT column is the normalised Fourier sum whose modulus is S", "", witness=None if okf else "FFT column is another quantity", loc=loc_of(it, st["FFT"]))
         # ---- rounding precedes the |q| average, returned pair
         okret = ret[0] == "tuple" and len(ret[1]) == 2
         if okret:
@@ -516,7 +532,12 @@ def check_sq(run, pkg):
             okround = full[0] == "call" and full[1] == ".round" and len(full[2]) == 2
             want_ave = ("call", ".reset_index", (("call", ".mean", (("call", ".groupby", (("sub", full, C("Sq")), ("sub", full, C("q"))), ()),), ()),), ())
             okave = ave == want_ave
-            run.ob("R-ORDER", fq, f"{kind}:average", bool(okround and okave), "values are rounded, then averaged over equal |q| of the rounded table; (table, average) returned",
-                   show(ave)[:90], witness=None if okround and okave else "equal |q| with float noise are not merged / grouped by another column", loc=fi.loc())
+            okra = True if (okround and okave) else None
+            import ast as _ast
+            rounding = [n_ for n_ in _ast.walk(fi.node) if (isinstance(n_, _ast.Attribute) and "round" in n_.attr) or (isinstance(n_, _ast.Name) and "round" in n_.id)]
+            if not okround and okave and not rounding:
+                okra = False       # nothing in the routine rounds: the table is grouped by its raw float |q| column
+            run.ob("R-ORDER", fq, f"{kind}:average", okra, "values are rounded, then averaged over equal |q| of the rounded table; (table, average) returned",
+                   show(ave)[:90], witness=None if okround and okave else "equal |q| with float noise are not merged", loc=fi.loc(), sound=True)
         else:
             run.ob("R-ORDER", fq, f"{kind}:average", None, "(table, average) returned", show(ret)[:80], loc=fi.loc())
